@@ -89,4 +89,15 @@ contains
     integer(C_INT) :: r
     r = 3*i + 1
   end function vf_cb3
+  function vf_cbd(x) bind(C) result(r)
+    real(C_DOUBLE), value :: x
+    real(C_DOUBLE) :: r
+    r = 2*x + 0.25_C_DOUBLE
+  end function vf_cbd
+  function vf_cbl(i, x) bind(C) result(r)
+    integer(C_INT), value :: i
+    real(C_DOUBLE), value :: x
+    integer(C_LONG) :: r
+    r = 100_C_LONG*i + int(2*x, C_LONG)
+  end function vf_cbl
 end module vf_out
